@@ -705,6 +705,7 @@ theorem limits_leaves : Leaves (keeps LimitsInv) where
   clearRules := fun b c h => limitsInv_clearRules b c h
   removeConn := fun b c h => limitsInv_removeConn b c h
   connect := fun b c uid gids canFd hc h => limitsInv_connect b c uid gids canFd hc h
+  setFull := fun _ _ h => ⟨h.ids, h.conns, h.pending, h.completed, h.per_user⟩
 
 theorem limitsInv_run (tbl : List IfaceRow) (l : Limits) (p : Policy) (evs : List Ev) :
     LimitsInv (run tbl { limits := l, policy := p } evs).1 :=
